@@ -310,6 +310,7 @@ func emitWrap(repo, outV string) error {
 		{"w_dot", "operators.go", "CPUTensor", "dot"}, {"w_matMul", "operators.go", "CPUTensor", "matMul"},
 		{"w_reduceDimUsingFunc", "reducers.go", "CPUTensor", "reduceDimUsingFunc"},
 		{"w_constTensor", "initializers.go", "", "constTensor"}, {"w_eyeMatrix", "initializers.go", "", "eyeMatrix"},
+		{"w_uniformRandomTensor", "initializers.go", "", "uniformRandomTensor"}, {"w_normalRandomTensor", "initializers.go", "", "normalRandomTensor"},
 	}
 	for _, tg := range targets {
 		f := parsed[tg.file]
